@@ -87,6 +87,10 @@ MINI = [":", "0", "-1", "1:", "::-1", ":-1", "1:3"]
 MINI5 = [":", "0", "-1", "1:", "::-1"]
 TENS = ["i", "I", "i:i+1", "i:j", "i:", ":j", "i::-1", ":j:-1", "i:j:-1", "::k", "i:j:k"]
 TENS4 = ["i", "I", "i:i+1", "i:j"]
+# The forms the converter's docstring lists as supported (A[i+1:i+2] is i:i+1 up to the value of i, A[i:i+j, k] is
+# i:j, i).  For these a refusal where numpy succeeds is a violation ("strict" families).
+DOC1 = ["0", "-1", "1:", ":2", "1:-1", "1:2", "2:0:-1", ":0:-1", "i", "i:i+1"]
+DOC2 = [":,1", ":2,0", ":2,:1", "0,:0:-1", "i:j,i"]
 
 _TENSOR_ATOMS = ("i", "j", "k", "i+1")
 
@@ -213,6 +217,10 @@ def families(tier):
     F.append(("r1-tens", 1, [TENS], "full", False))
     F.append(("r2-short-lit", 2, [FULL], "full", True))
     F.append(("r2-short-tens", 2, [TENS], "full", True))
+    for r in (1, 2, 3):
+        F.append((f"doc-r{r}-len1", r, [DOC1], "full", r > 1, {"strict": True, "whole": True}))
+    for r in (2, 3):
+        F.append((f"doc-r{r}-len2", r, [DOC2], "full", True, {"strict": True, "whole": True}))
     if tier == "quick":
         F.append(("r2-lit-red", 2, [RED, RED], "full", True))
         F.append(("r2-tens-p0", 2, [TENS, RED], "small", True))
@@ -243,7 +251,7 @@ def families(tier):
         F.append(("r3-tens2-p01", 3, [TENS4, TENS4, MINI5], "small", True))
         F.append(("r3-tens2-p02", 3, [TENS4, MINI5, TENS4], "small", True))
         F.append(("r3-tens2-p12", 3, [MINI5, TENS4, TENS4], "small", True))
-    return F
+    return [f if len(f) == 6 else f + ({},) for f in F]
 
 
 _ITEM_BUDGET_MS = 3000.0
@@ -261,7 +269,9 @@ def plan(tier, seed):
 
     def driver(ch):
         name = ch.all("family", names)
-        _, rank, alphas, mode, memo = by_name[name]
+        _, rank, alphas, mode, memo, opt = by_name[name]
+        if opt.get("whole"):
+            return name, ch.all(f"{name}.expr", alphas[0]).split(",")
         expr = [ch.all(f"{name}.c{p}", a) for p, a in enumerate(alphas)]
         return name, expr
 
@@ -273,7 +283,8 @@ def plan(tier, seed):
     fam_stats = {}
     total_evals = 0
     for name in names:
-        _, rank, alphas, mode, memo = by_name[name]
+        _, rank, alphas, mode, memo, opt = by_name[name]
+        strict = bool(opt.get("strict"))
         exprs = sorted(per_family[name])
         cur, acc = [], 0.0
         n_eval = 0
@@ -281,14 +292,15 @@ def plan(tier, seed):
             c = _cost_ms(e, rank, mode, memo)
             n_eval += (4 ** rank) * n_valuations(e, mode)
             if cur and acc + c > _ITEM_BUDGET_MS:
-                items.append({"fam": name, "rank": rank, "mode": mode, "memo": memo, "exprs": cur})
+                items.append({"fam": name, "rank": rank, "mode": mode, "memo": memo, "strict": strict, "exprs": cur})
                 cur, acc = [], 0.0
             cur.append(e)
             acc += c
         if cur:
-            items.append({"fam": name, "rank": rank, "mode": mode, "memo": memo, "exprs": cur})
+            items.append({"fam": name, "rank": rank, "mode": mode, "memo": memo, "strict": strict, "exprs": cur})
         fam_stats[name] = {"rank": rank, "expressions": len(exprs), "shapes": 4 ** rank, "valuation_mode": mode,
-                           "planned_evaluations": n_eval, "alphabet_sizes": [len(a) for a in alphas]}
+                           "planned_evaluations": n_eval, "alphabet_sizes": [len(a) for a in alphas],
+                           "refusal_is_violation": strict}
         total_evals += n_eval
     d = st.as_dict()
     d["exhaustive"] = not st.capped
@@ -739,6 +751,7 @@ def execute(item):
     import time
     t_cpu = time.process_time()
     rank, mode, memo = item["rank"], item["mode"], item["memo"]
+    strict = bool(item.get("strict"))
     shapes = shapes_of(rank)
     counts = {}
     viols = {}
@@ -775,6 +788,23 @@ def execute(item):
                 if (jg == "eq") != (je == "eq") and not _bad(jg) and not _bad(je):
                     inc("support-disagree:" + ("graph-only" if jg == "eq" else "eager-only"))
                 for side, j, got in (("graph", jg, g), ("eager", je, e)):
+                    if (strict and j.startswith("refused:")
+                            and all(v >= 0 for k, v in vals.items() if k[0] in "ij")):
+                        # a form the documentation lists as supported must not be refused where numpy succeeds
+                        # (the documented examples show negative literals but no negative tensor values, so the
+                        # demand is limited to non-negative tensor values)
+                        text = "X[" + ", ".join(expr) + "]"
+                        key = f"C11|{side}|documented form refused: {text}"
+                        inc(f"{side}:documented-refused")
+                        if key not in viols:
+                            viols[key] = {"key": key, "detail": {
+                                "kind": j, "index": "X[" + ", ".join(render(c, p) for p, c in enumerate(expr)) + "]",
+                                "shape": list(shape), "tensor_inputs": vals, "numpy": _desc(want),
+                                "graph": _desc(g), "eager": _desc(e), "source": source_of(expr, rank)[0],
+                                "cases_in_item": 1}}
+                        else:
+                            viols[key]["detail"]["cases_in_item"] += 1
+                        continue
                     if not _bad(j):
                         continue
                     mexpr, mshape, mvals, classes = minimise(expr, rank, shape, vals, memo, side, j)
